@@ -861,6 +861,15 @@ def main(chk: Check, replay: dict | None = None) -> int:
         codes = chk.coq_eval(imports, "dcase * pobs",
                              [f"({c_dcase(c['input'])}, ({c_path(c['obs']['path'])}, {cbool(c['obs']['imported'])}, {cstr(c['obs']['annotation'])}))"
                               for c in cases], "run", shard=150, prelude=prelude)
+    if chk.model_ok:
+        # hypothesis of C05_partial: every generated case is a well-formed dcase (reported, and a broken check if not)
+        wf = chk.coq_eval(imports, "dcase", [c_dcase(c["input"]) for c in cases], "run_wf", shard=150, prelude=prelude, tag="wf")
+        if wf is not None:
+            bad = [c["input"] for c, w in zip(cases, wf) if w != 1]
+            chk.cov["input_distribution"]["cases_not_wf_dcase"] = len(bad)
+            if bad:
+                chk.broken.append({"kind": "domain", "name": "wf_dcase false on a generated case (outside C05_partial's hypothesis)",
+                                   "first": {k: v for k, v in bad[0].items() if k != "module"}})
     chk.decide(cases, codes, {1: "F05b", 2: "F05c", 3: "F05f", 4: "F05i"},
                "Corr.C05.run: handle/module_has_cattrs/resolve (model) = decode expression, import and annotation in the generated source")
     # (A) function level
